@@ -279,7 +279,7 @@ func (g *Gen) mapKeyTail() string {
 	if !g.Boundary {
 		return "k"
 	}
-	return []string{"k", "k k", "ü", "a.b", "q\"uote", "b\\s"}[g.Rng.Intn(6)]
+	return []string{"k", "k k", "ü", "a.b", "q\"uote", "b\\s", "c\x01tl", "del\x7f", "sep\u2028", "tab\t", "nl\n"}[g.Rng.Intn(11)]
 }
 
 func (g *Gen) fillStruct(v reflect.Value, s oas.M, depth int) {
